@@ -267,7 +267,10 @@ class Engine:
                 outs.append((RAISE, s2, v.exc))
                 continue
             if hint is not None:
-                v = self.coerce(v, hint, s2)
+                if isinstance(v.ty, THelper) and v.ty.kind not in ("pylist", "pytuple"):
+                    pass        # helper values (views, enumerations of sets, ...) keep their Python-side representation
+                else:
+                    v = self.coerce(v, hint, s2)
             self.assign(s.target, v, s2)
             outs.append((NEXT, s2, None))
         return outs
@@ -333,21 +336,86 @@ class Engine:
                 outs += self.block(s.orelse, s1)
                 continue
             a, b = s1, s1.clone()
+            base_len = len(s1.pc)
             a.assume(c)
             b.assume(z3.Not(c))
             self.narrow(s.test, a, True)
             self.narrow(s.test, b, False)
+            per_branch = []
             for br, blk in ((a, s.body), (b, s.orelse)):
                 n0 = len(self.obls)
                 try:
-                    outs += self.block(blk, br)
+                    per_branch.append(self.block(blk, br))
                 except OutOfSubset:
                     # a construct outside the subset only matters if the branch can be taken at all
                     if self._feasible(br):
                         raise
                     del self.obls[n0:]
+                    per_branch.append([])
                     self.notes.append(f"infeasible branch at line {s.lineno} skipped (contains constructs outside the subset)")
+            merged = self._merge_branches(base_len, per_branch, c) if getattr(self.c, "merge_ifs", False) else None
+            if merged is not None:
+                outs.append((NEXT, merged, None))
+            else:
+                outs += per_branch[0] + per_branch[1]
         return outs
+
+    def _merge_branches(self, base_len, per_branch, c):
+        """Join of the two branches of an `if` when both fall through exactly once and differ only in values that have
+        an SMT term of the same type (or in literal strings): one state with if-then-else values and the disjunction of
+        the two path conditions.  Purely an optimisation of the path enumeration (opt-in: Contract.merge_ifs)."""
+        if len(per_branch) != 2 or any(len(o) != 1 or o[0][0] != NEXT for o in per_branch):
+            return None
+        sa, sb = per_branch[0][0][1], per_branch[1][0][1]
+        if set(sa.env) != set(sb.env) or set(sa.heap) != set(sb.heap) or set(sa.ghost) != set(sb.ghost):
+            return None
+
+        def join(x, y):
+            if x is y:
+                return x
+            if isinstance(x, Ref) or isinstance(y, Ref):
+                return x if (isinstance(x, Ref) and isinstance(y, Ref) and x.t == y.t) else None
+            if isinstance(x, _StrLit) and isinstance(y, _StrLit):
+                return x if x.s == y.s else _StrChoice(c, x, y)
+            if not isinstance(x, Val) or not isinstance(y, Val):
+                return None
+            if x.t is None or y.t is None or x.ty != y.ty or not z3.is_expr(x.t) or not z3.is_expr(y.t):
+                return None
+            if z3.eq(x.t, y.t):
+                return x
+            return Val(x.ty, z3.If(c, x.t, y.t))
+        env = {}
+        for k in sa.env:
+            j = join(sa.env[k], sb.env[k])
+            if j is None:
+                return None
+            env[k] = j
+        for k in sa.ghost:
+            ga, gb = sa.ghost[k], sb.ghost[k]
+            if ga is gb:
+                continue
+            if z3.is_expr(ga) and z3.is_expr(gb) and z3.eq(ga, gb):
+                continue
+            if isinstance(ga, (int, str)) and ga == gb:
+                continue
+            return None
+        heap = {}
+        for oid in sa.heap:
+            ha, hb = sa.heap[oid], sb.heap[oid]
+            if set(ha.fields) != set(hb.fields):
+                return None
+            h = ha.clone()
+            for f in ha.fields:
+                j = join(ha.fields[f], hb.fields[f])
+                if j is None:
+                    return None
+                h.fields[f] = j
+            heap[oid] = h
+        m = sa.clone()
+        m.env, m.heap = env, heap
+        xa, xb = sa.pc[base_len:], sb.pc[base_len:]
+        m.pc = list(sa.pc[:base_len]) + [z3.Or(z3.And(*xa) if xa else z3.BoolVal(True), z3.And(*xb) if xb else z3.BoolVal(True))]
+        return m
 
     def _feasible(self, st):
         sol = z3.Solver()
@@ -600,6 +668,11 @@ class Engine:
                     want = cur.ty
                 if want is None and cur is not None and cur.ty == TSpace and v.ty != TNoneLit:
                     want = TSpace
+                if want is None and v.ty != TNoneLit:
+                    # `if p is None: p = {}` / `= []` on an Optional parameter: the literal has the parameter's element type
+                    decl = dict(list(self.c.params) + list(self.c.captured)).get(target.id)
+                    if isinstance(decl, TOpt):
+                        want = decl.elem
                 if want is not None:
                     try:
                         v = self.coerce(v, want, st)
@@ -777,6 +850,8 @@ class Engine:
             items = [x if not isinstance(x, _PyTuple) else self.tuple_val(x, st) for x in items]
         except OutOfSubset:
             return _PyList(items)      # components not typed yet (e.g. a None): typed when it meets a declared type
+        if any(isinstance(x, (_StrLit, _StrChoice)) or isinstance(x.ty, THelper) for x in items):
+            return _PyList(items)      # literal strings / helper values: only `in` tests and pattern-matched uses
         ty = TList(items[0].ty)
         arr = z3.Const(fresh_name("lit"), z3.ArraySort(I, items[0].ty.sort()))
         for i, x in enumerate(items):
@@ -1011,6 +1086,11 @@ class Engine:
             return r
         if isinstance(a, _StrLit) and isinstance(b, _StrLit):
             return z3.BoolVal(a.s == b.s)
+        from . import theory as _T0
+        if a.ty == TInt and isinstance(b, _StrLit) and b.s in _T0.PROBLEM:      # enum-coded string parameter (problem kind)
+            return a.t == _T0.PROBLEM[b.s]
+        if b.ty == TInt and isinstance(a, _StrLit) and a.s in _T0.PROBLEM:
+            return b.t == _T0.PROBLEM[a.s]
         if isinstance(a, _StrChoice) and isinstance(b, _StrLit):
             return z3.If(a.c, z3.BoolVal(a.a.s == b.s), z3.BoolVal(a.b.s == b.s))
         if a.ty == TBool and b.ty == TBool:
